@@ -1,7 +1,8 @@
 #!/bin/bash
 # tools/seedrun.sh Cxx n [props…]  — run the seeded change /tmp/seed_Cxx/out/n (or /verif/seeded/Cxx-n) against the given checks (default: Cxx), log to /tmp/seedres
 p="$1"; n="$2"; shift 2; props="${*:-$p}"
-src="/tmp/seed_$p/out/$n"; [ -d "$src" ] || src="/verif/seeded/$p-$n"
+src="${SEEDROOT:-/tmp/seed}_$p/out/$n"; [ -d "$src" ] || src="/verif/seeded/$p-$n"
+tag="$p-${SEEDTAG:-$n}"
 mkdir -p /tmp/seedres
-/verif/tools/seedtest.sh "$src/patch.diff" $props > "/tmp/seedres/$p-$n.txt" 2>&1
-grep -E "^== |^VIOLATION|^C[0-9]+:|exit=|verdict" "/tmp/seedres/$p-$n.txt" | cut -c1-260
+/verif/tools/seedtest.sh "$src/patch.diff" $props > "/tmp/seedres/$tag.txt" 2>&1
+grep -E "^== |^VIOLATION|^C[0-9]+:|exit=|verdict" "/tmp/seedres/$tag.txt" | cut -c1-260
